@@ -34,3 +34,666 @@ Proof.
   replace (U' * (- (v * x) / sqrt (q + x * x))) with (- (v * x) / sqrt (q + x * x) * U') by ring.
   exact D.
 Qed.
+
+(** *** inverse power *)
+Lemma ip_U_is_derive (p kc r : R) :
+  0 < r -> is_derive (ip_U p kc) r (- p * kc / Rpower r (p + 1)).
+Proof.
+  intros Hr. unfold ip_U, Rpower.
+  auto_derive.
+  - split; [exact Hr | split; [apply Rgt_not_eq, exp_pos | exact I]].
+  - replace ((p + 1) * ln r) with (p * ln r + ln r) by ring.
+    rewrite exp_plus, (exp_ln r Hr).
+    pose proof (exp_pos (p * ln r)) as He.
+    field. split; lra.
+Qed.
+
+Lemma Rpower_succ (r p : R) : 0 < r -> Rpower r (p + 1) = Rpower r p * r.
+Proof. intros; rewrite Rpower_plus, Rpower_1; auto. Qed.
+
+Theorem ip_derivative_is_derive (p pref c1 c2 x q speed : R) :
+  0 < q + x * x ->
+  is_derive (fun s => ip_U p (pref * c1 * c2) (sqrt (q + (x - s * speed) * (x - s * speed)))) 0
+            (sv_derivative (ip_derivative p pref c1 c2 x q) speed).
+Proof.
+  intros H.
+  assert (Hr : 0 < sqrt (q + x * x)) by (apply sqrt_lt_R0, H).
+  pose proof (radial_derive (ip_U p (pref * c1 * c2)) _ x q speed H (ip_U_is_derive p (pref * c1 * c2) _ Hr)) as D.
+  unfold sv_derivative, ip_derivative.
+  replace (p + 2) with ((p + 1) + 1) by ring.
+  rewrite (Rpower_succ _ (p + 1) Hr).
+  match goal with |- is_derive _ _ ?a => match type of D with is_derive _ _ ?b => replace a with b; [exact D|] end end.
+  pose proof (exp_pos ((p + 1) * ln (sqrt (q + x * x)))) as He. fold (Rpower (sqrt (q + x * x)) (p + 1)) in He.
+  field. split; lra.
+Qed.
+
+(** *** Lennard-Jones *)
+Lemma lj_U_is_derive (k sigma r : R) :
+  0 < r -> is_derive (lj_U k sigma) r (k * (- 12 * sigma ^ 12 / r ^ 13 + 6 * sigma ^ 6 / r ^ 7)).
+Proof.
+  intros Hr. unfold lj_U.
+  auto_derive.
+  - repeat split; apply Rgt_not_eq; exact Hr.
+  - field. apply Rgt_not_eq; exact Hr.
+Qed.
+
+Lemma Rpower_nat (r : R) (n : nat) (a : R) : 0 < r -> a = INR n -> Rpower r a = r ^ n.
+Proof. intros Hr ->. apply Rpower_pow, Hr. Qed.
+
+Theorem lj_derivative_is_derive (k sigma x q speed : R) :
+  0 < q + x * x ->
+  is_derive (fun s => lj_U k sigma (sqrt (q + (x - s * speed) * (x - s * speed)))) 0
+            (sv_derivative (lj_derivative k sigma x q) speed).
+Proof.
+  intros H.
+  assert (Hr : 0 < sqrt (q + x * x)) by (apply sqrt_lt_R0, H).
+  pose proof (radial_derive (lj_U k sigma) _ x q speed H (lj_U_is_derive k sigma _ Hr)) as D.
+  unfold sv_derivative, lj_derivative, ip_derivative.
+  rewrite (Rpower_nat _ 8 (6 + 2) Hr) by (simpl; ring).
+  rewrite (Rpower_nat _ 14 (12 + 2) Hr) by (simpl; ring).
+  match goal with |- is_derive _ _ ?a => match type of D with is_derive _ _ ?b => replace a with b; [exact D|] end end.
+  field. apply Rgt_not_eq; exact Hr.
+Qed.
+
+(** *** displaced even power *)
+Lemma dep_U_is_derive (k r0 : R) (p : nat) (r : R) :
+  is_derive (dep_U k r0 p) r (k * (INR p * (r - r0) ^ pred p)).
+Proof.
+  unfold dep_U.
+  apply (is_derive_scal (fun r => (r - r0) ^ p) r k).
+  pose proof (is_derive_pow (fun r => r - r0) p r 1) as D.
+  replace (INR p * (r - r0) ^ pred p) with (INR p * 1 * (r - r0) ^ pred p) by ring.
+  apply D. auto_derive; [exact I | ring].
+Qed.
+
+Theorem dep_derivative_is_derive (k r0 : R) (p : nat) (x q speed : R) :
+  0 < q + x * x ->
+  is_derive (fun s => dep_U k r0 p (sqrt (q + (x - s * speed) * (x - s * speed)))) 0
+            (sv_derivative (dep_derivative k r0 p x q) speed).
+Proof.
+  intros H.
+  assert (Hr : 0 < sqrt (q + x * x)) by (apply sqrt_lt_R0, H).
+  pose proof (radial_derive (dep_U k r0 p) _ x q speed H (dep_U_is_derive k r0 p _)) as D.
+  unfold sv_derivative, dep_derivative.
+  replace (p - 1)%nat with (pred p) by lia.
+  match goal with |- is_derive _ _ ?a => match type of D with is_derive _ _ ?b => replace a with b; [exact D|] end end.
+  field. apply Rgt_not_eq; exact Hr.
+Qed.
+
+(** *** 1/r bounding potential of the C extension (nearest image, inside the primary cell) *)
+Lemma inv_U_is_derive (kc r : R) : 0 < r -> is_derive (fun r => kc / r) r (- kc / (r * r)).
+Proof. intros Hr. auto_derive; [apply Rgt_not_eq, Hr | field; apply Rgt_not_eq, Hr]. Qed.
+
+Theorem ipc_derivative_is_derive (kc x q speed : R) :
+  0 < q + x * x ->
+  is_derive (fun s => ipc_pot kc (x - s * speed) q) 0 (sv_derivative (ipc_derivative kc x q) speed).
+Proof.
+  intros H.
+  assert (Hr : 0 < sqrt (q + x * x)) by (apply sqrt_lt_R0, H).
+  pose proof (radial_derive (fun r => kc / r) _ x q speed H (inv_U_is_derive kc _ Hr)) as D.
+  unfold ipc_pot.
+  apply (is_derive_ext (fun s => kc / sqrt (q + (x - s * speed) * (x - s * speed)))).
+  { intros t. f_equal. f_equal. ring. }
+  unfold sv_derivative, ipc_derivative.
+  replace (x * x + q) with (q + x * x) by ring.
+  replace (Rpower (q + x * x) (3 / 2)) with (sqrt (q + x * x) * sqrt (q + x * x) * sqrt (q + x * x)).
+  - match goal with |- is_derive _ _ ?a => match type of D with is_derive _ _ ?b => replace a with b; [exact D|] end end.
+    field. apply Rgt_not_eq; exact Hr.
+  - replace (3 / 2) with (1 + / 2) by field.
+    rewrite Rpower_plus, Rpower_1, Rpower_sqrt by exact H.
+    rewrite sqrt_sqrt by lra. reflexivity.
+Qed.
+
+(** *** cell bounding: constant bounding rate (the bounding "energy" grows linearly with the distance) *)
+Theorem cb_derivative_is_derive (rate speed : R) :
+  is_derive (fun s => rate * (s * speed)) 0 (sv_derivative (cb_derivative rate) speed).
+Proof. unfold sv_derivative, cb_derivative. auto_derive; [exact I | ring]. Qed.
+
+(** *** linearity in the speed and in the charge product *)
+Lemma sv_linear_in_speed (D a v : R) : sv_derivative D (a * v) = a * sv_derivative D v.
+Proof. unfold sv_derivative; ring. Qed.
+
+Lemma ip_linear_in_charge (p pref a c1 c2 x q : R) :
+  ip_derivative p pref (a * c1) c2 x q = a * ip_derivative p pref c1 c2 x q.
+Proof. unfold ip_derivative; ring. Qed.
+
+Lemma ip_charge_product_only (p pref c1 c2 x q : R) :
+  ip_derivative p pref c1 c2 x q = (c1 * c2) * ip_derivative p pref 1 1 x q.
+Proof. unfold ip_derivative; ring. Qed.
+
+Lemma ipc_linear_in_prefactor_product (a kc x q : R) : ipc_derivative (a * kc) x q = a * ipc_derivative kc x q.
+Proof. unfold ipc_derivative; unfold Rdiv; ring. Qed.
+
+(** *** vectors.permutation_3d maps direction d onto the x routine *)
+Lemma permutation_maps (f : R -> R -> R) (v : vec3) (d : nat) :
+  (d < 3)%nat ->
+  (let '(a, b, c) := perm3 v d in f a (b * b + c * c)) = f (comp3 v d) (trans3 v d).
+Proof.
+  intros Hd. destruct v as [[a b] c].
+  destruct d as [|[|[|d]]]; simpl; try lia; f_equal; ring.
+Qed.
+
+(** *** three-dimensional form: separation vector, motion along axis d *)
+Lemma norm3_path (sep : vec3) (d : nat) (t : R) :
+  (d < 3)%nat ->
+  norm3 (sub3 sep (scal3 t (unit3 d))) = sqrt (trans3 sep d + (comp3 sep d - t) * (comp3 sep d - t)).
+Proof.
+  intros Hd. destruct sep as [[a b] c]. unfold norm3.
+  destruct d as [|[|[|d]]]; simpl; try lia; f_equal; ring.
+Qed.
+
+Lemma norm3_sq (sep : vec3) (d : nat) :
+  (d < 3)%nat -> dot3 sep sep = trans3 sep d + comp3 sep d * comp3 sep d.
+Proof.
+  intros Hd. destruct sep as [[a b] c].
+  destruct d as [|[|[|d]]]; simpl; try lia; ring.
+Qed.
+
+Theorem derivative_is_derive_3d (U : R -> R) (D : R -> R -> R) (speed : R) (sep : vec3) (d : nat) :
+  (d < 3)%nat -> 0 < dot3 sep sep ->
+  (forall x q, 0 < q + x * x ->
+     is_derive (fun s => U (sqrt (q + (x - s * speed) * (x - s * speed)))) 0 (sv_derivative (D x q) speed)) ->
+  is_derive (fun s => U (norm3 (sub3 sep (scal3 (s * speed) (unit3 d))))) 0
+            (sv_derivative (D (comp3 sep d) (trans3 sep d)) speed).
+Proof.
+  intros Hd Hn HD.
+  apply (is_derive_ext (fun s => U (sqrt (trans3 sep d + (comp3 sep d - s * speed) * (comp3 sep d - s * speed))))).
+  { intros t. rewrite (norm3_path sep d (t * speed) Hd). reflexivity. }
+  apply HD. rewrite <- (norm3_sq sep d Hd). exact Hn.
+Qed.
+
+(** ** C02: hard sphere — the returned time is the first contact time *)
+Lemma dist_sq_path (s v : vec3) (t : R) :
+  dot3 (sub3 s (scal3 t v)) (sub3 s (scal3 t v)) = dot3 s s - 2 * t * dot3 v s + t * t * dot3 v v.
+Proof. destruct s as [[a b] c], v as [[a' b'] c']. simpl. ring. Qed.
+
+Lemma hs_cases (d2 : R) (v s : vec3) :
+  let vv := dot3 v v in let ss := dot3 s s in let vs := dot3 v s in
+  let D := vs * vs - vv * (ss - d2) in
+  (0 <= D /\ 0 <= vs /\ hs_displacement d2 v s = Some ((vs - sqrt D) / vv)) \/
+  ((D < 0 \/ vs < 0) /\ hs_displacement d2 v s = None).
+Proof.
+  intros vv ss vs D. unfold hs_displacement. fold vv ss vs. fold D.
+  destruct (Rle_dec 0 D) as [HD|HD]; destruct (Rle_dec 0 vs) as [Hv|Hv].
+  - left; auto.
+  - right; split; [right; lra | reflexivity].
+  - right; split; [left; lra | reflexivity].
+  - right; split; [left; lra | reflexivity].
+Qed.
+
+Theorem hs_first_contact (d2 : R) (v s : vec3) (t : R) :
+  0 < dot3 v v -> d2 <= dot3 s s ->
+  hs_displacement d2 v s = Some t ->
+  0 <= t /\
+  dot3 (sub3 s (scal3 t v)) (sub3 s (scal3 t v)) = d2 /\
+  (forall t', 0 <= t' < t -> d2 < dot3 (sub3 s (scal3 t' v)) (sub3 s (scal3 t' v))).
+Proof.
+  intros Hvv Hss H.
+  destruct (hs_cases d2 v s) as [[HD [Hvs E]]|[_ E]]; rewrite E in H; [|discriminate].
+  injection H as <-.
+  set (vv := dot3 v v) in *. set (ss := dot3 s s) in *. set (vs := dot3 v s) in *.
+  set (D := vs * vs - vv * (ss - d2)) in *.
+  pose proof (sqrt_pos D) as Hs0.
+  pose proof (sqrt_sqrt D HD) as Hs2.
+  assert (Hle : sqrt D <= vs).
+  { destruct (Rle_lt_dec (sqrt D) vs) as [L|L]; [exact L|]. exfalso.
+    assert (vs * vs < sqrt D * sqrt D) by nra. unfold D in *. nra. }
+  set (t := (vs - sqrt D) / vv).
+  assert (Et : vv * t = vs - sqrt D) by (unfold t; field; lra).
+  split; [|split].
+  - unfold t. apply Rmult_le_pos; [lra | left; apply Rinv_0_lt_compat; exact Hvv].
+  - rewrite dist_sq_path. fold vv ss vs.
+    assert (vv * (ss - 2 * t * vs + t * t * vv - d2) = 0).
+    { replace (vv * (ss - 2 * t * vs + t * t * vv - d2)) with ((vv * t - vs) * (vv * t - vs) - D) by (unfold D; ring).
+      rewrite Et. ring_simplify. ring_simplify in Hs2. lra. }
+    assert (ss - 2 * t * vs + t * t * vv - d2 = 0) by nra. lra.
+  - intros t' [H0 Hlt]. rewrite dist_sq_path. fold vv ss vs.
+    assert (0 < vv * (ss - 2 * t' * vs + t' * t' * vv - d2)).
+    { replace (vv * (ss - 2 * t' * vs + t' * t' * vv - d2)) with ((vv * t' - vs) * (vv * t' - vs) - D) by (unfold D; ring).
+      assert (vv * t' - vs < - sqrt D) by nra. nra. }
+    assert (0 < ss - 2 * t' * vs + t' * t' * vv - d2) by nra. lra.
+Qed.
+
+(** stated for a start strictly outside the sphere; on the sphere itself (measure zero) the code returns 0 when
+    approaching or moving tangentially and inf when separating *)
+Theorem hs_infinite_iff_no_contact (d2 : R) (v s : vec3) :
+  0 < dot3 v v -> d2 < dot3 s s ->
+  (hs_displacement d2 v s = None <->
+   forall t, 0 <= t -> d2 < dot3 (sub3 s (scal3 t v)) (sub3 s (scal3 t v))).
+Proof.
+  intros Hvv Hss. split.
+  - intros H t Ht.
+    destruct (hs_cases d2 v s) as [[HD [Hvs E]]|[C _]]; [rewrite E in H; discriminate|].
+    rewrite dist_sq_path.
+    set (vv := dot3 v v) in *. set (ss := dot3 s s) in *. set (vs := dot3 v s) in *.
+    destruct C as [C|C].
+    + assert (0 < vv * (ss - 2 * t * vs + t * t * vv - d2)).
+      { replace (vv * (ss - 2 * t * vs + t * t * vv - d2))
+          with ((vv * t - vs) * (vv * t - vs) - (vs * vs - vv * (ss - d2))) by ring.
+        pose proof (Rle_0_sqr (vv * t - vs)) as Hsq. unfold Rsqr in Hsq. cbv zeta in C. lra. }
+      assert (0 < ss - 2 * t * vs + t * t * vv - d2) by nra. lra.
+    + cbv zeta in C. assert (0 <= - 2 * t * vs) by nra. assert (0 <= t * t * vv) by nra. lra.
+  - intros H.
+    destruct (hs_cases d2 v s) as [[HD [Hvs E]]|[_ E]]; [|exact E]. exfalso.
+    assert (Hle : d2 <= dot3 s s) by lra.
+    destruct (hs_first_contact d2 v s _ Hvv Hle E) as [H0 [Heq _]].
+    specialize (H _ H0). lra.
+Qed.
+
+(** ** C02: inverse power potential — the displacement inverts the cumulative uphill energy *)
+
+(** the code's potential(charge_product, separation) is the energy U = c k / r^p at r = |separation| *)
+Lemma ip_potential_U (p pref c r2 : R) :
+  0 < r2 -> ip_potential p pref c r2 = ip_U p (c * pref) (sqrt r2).
+Proof.
+  intros H. unfold ip_potential, ip_U.
+  rewrite <- (Rpower_sqrt r2 H), Rpower_mult.
+  replace (/ 2 * p) with (p / 2) by field. reflexivity.
+Qed.
+
+Lemma Rpower_inv_exp (a p : R) : 0 < a -> p <> 0 -> Rpower (Rpower a (2 / p)) (p / 2) = a.
+Proof.
+  intros Ha Hp. rewrite Rpower_mult.
+  replace (2 / p * (p / 2)) with 1 by (field; exact Hp). apply Rpower_1, Ha.
+Qed.
+
+Lemma Rpower_inv_exp' (a p : R) : 0 < a -> p <> 0 -> Rpower (Rpower a (p / 2)) (2 / p) = a.
+Proof.
+  intros Ha Hp. rewrite Rpower_mult.
+  replace (p / 2 * (2 / p)) with 1 by (field; exact Hp). apply Rpower_1, Ha.
+Qed.
+
+Lemma Rpower_pos (a b : R) : 0 < Rpower a b.
+Proof. unfold Rpower; apply exp_pos. Qed.
+
+(** energy along the path as the code evaluates it *)
+Definition ip_path (p pref c x q s : R) : R := ip_potential p pref c (q + (x - s) * (x - s)).
+
+(** monotone pieces: for k = c*pref > 0 the energy increases while approaching (s < x) and decreases afterwards;
+    for k < 0 the other way round *)
+Lemma ip_potential_antitone (p pref c a b : R) :
+  0 < p -> 0 < c * pref -> 0 < a -> a <= b -> ip_potential p pref c b <= ip_potential p pref c a.
+Proof.
+  intros Hp Hk Ha Hab. unfold ip_potential.
+  assert (Rpower a (p / 2) <= Rpower b (p / 2)) by (apply Rle_Rpower_l; lra).
+  pose proof (Rpower_pos a (p / 2)). pose proof (Rpower_pos b (p / 2)).
+  unfold Rdiv. apply Rmult_le_compat_l; [lra|]. apply Rinv_le_contravar; assumption.
+Qed.
+
+Lemma ip_potential_antitone_strict (p pref c a b : R) :
+  0 < p -> 0 < c * pref -> 0 < a -> a < b -> ip_potential p pref c b < ip_potential p pref c a.
+Proof.
+  intros Hp Hk Ha Hab. unfold ip_potential.
+  assert (Rpower a (p / 2) < Rpower b (p / 2)) by (apply Rlt_Rpower_l; lra).
+  pose proof (Rpower_pos a (p / 2)). pose proof (Rpower_pos b (p / 2)).
+  unfold Rdiv. apply Rmult_lt_compat_l; [lra|]. apply Rinv_lt_contravar; [nra | assumption].
+Qed.
+
+Lemma ip_potential_monotone_neg (p pref c a b : R) :
+  0 < p -> c * pref < 0 -> 0 < a -> a <= b -> ip_potential p pref c a <= ip_potential p pref c b.
+Proof.
+  intros Hp Hk Ha Hab. unfold ip_potential.
+  assert (Rpower a (p / 2) <= Rpower b (p / 2)) by (apply Rle_Rpower_l; lra).
+  pose proof (Rpower_pos a (p / 2)). pose proof (Rpower_pos b (p / 2)).
+  assert (/ Rpower b (p / 2) <= / Rpower a (p / 2)) by (apply Rinv_le_contravar; assumption).
+  unfold Rdiv. nra.
+Qed.
+
+Lemma ip_potential_pos (p pref c r2 : R) : 0 < c * pref -> 0 < ip_potential p pref c r2.
+Proof. intros. unfold ip_potential. apply Rdiv_lt_0_compat; [assumption | apply Rpower_pos]. Qed.
+
+(** inverting the potential: the squared norm at which the energy equals E *)
+Lemma ip_invert (p pref c E : R) :
+  0 < p -> 0 < (c * pref) / E ->
+  ip_potential p pref c (Rpower (c * pref / E) (2 / p)) = E.
+Proof.
+  intros Hp Hq. unfold ip_potential.
+  rewrite Rpower_inv_exp by lra.
+  assert (E <> 0). { intros ->. unfold Rdiv in Hq. rewrite Rinv_0, Rmult_0_r in Hq. lra. }
+  assert (c * pref <> 0). { intros Z. rewrite Z in Hq. unfold Rdiv in Hq. rewrite Rmult_0_l in Hq. lra. }
+  field. repeat split; try assumption; intros Z; apply H0; rewrite Z; ring.
+Qed.
+
+(** *** repulsive branch *)
+Theorem ip_repulsive_inverts (p pref c dE x q d : R) :
+  0 < p -> 0 < q -> 0 < dE -> 0 < c * pref ->
+  ip_disp_repulsive p pref c dE x q = Some d ->
+  0 < d < x /\
+  q <= Rpower (c * pref / (ip_potential p pref c (q + x * x) + dE)) (2 / p) /\   (* radicand non-negative *)
+  ip_path p pref c x q d = ip_path p pref c x q 0 + dE /\
+  Eplus (ip_path p pref c x q) (breaks_monotone x) d = dE.
+Proof.
+  intros Hp Hq HdE Hk H. unfold ip_disp_repulsive in H.
+  destruct (Rle_dec x 0) as [|Hx]; [discriminate|]. apply Rnot_le_lt in Hx.
+  cbv zeta in H.
+  replace (q + 0 * 0) with q in H by ring.
+  set (Umax := ip_potential p pref c q) in *.
+  set (U0 := ip_potential p pref c (q + x * x)) in *.
+  destruct (Rlt_dec dE (Umax - U0)) as [Hlt|]; [|discriminate].
+  injection H as <-.
+  set (n2 := Rpower (c * pref / (U0 + dE)) (2 / p)).
+  assert (HU0 : 0 < U0) by (apply ip_potential_pos; exact Hk).
+  assert (Hquot : 0 < c * pref / (U0 + dE)) by (apply Rdiv_lt_0_compat; lra).
+  assert (Hn2 : ip_potential p pref c n2 = U0 + dE) by (apply ip_invert; assumption).
+  assert (Hn2pos : 0 < n2) by apply Rpower_pos.
+  (* q < n2 < q + x^2 by strict antitonicity *)
+  assert (Hqn : q < n2).
+  { destruct (Rlt_le_dec q n2) as [L|L]; [exact L|]. exfalso.
+    pose proof (ip_potential_antitone p pref c n2 q Hp Hk Hn2pos L). fold Umax in H. lra. }
+  assert (Hnx : n2 < q + x * x).
+  { destruct (Rlt_le_dec n2 (q + x * x)) as [L|L]; [exact L|]. exfalso.
+    assert (0 < q + x * x) by nra.
+    pose proof (ip_potential_antitone p pref c (q + x * x) n2 Hp Hk H L). fold U0 in H0. lra. }
+  assert (Hs : 0 < sqrt (n2 - q) < x).
+  { split; [apply sqrt_lt_R0; lra|].
+    rewrite <- (sqrt_square x) by lra. apply sqrt_lt_1_alt. split; lra. }
+  unfold until_pos.
+  assert (Hd : 0 < x - sqrt (n2 - q) < x) by lra.
+  assert (Hpath : ip_path p pref c x q (x - sqrt (n2 - q)) = ip_path p pref c x q 0 + dE).
+  { unfold ip_path.
+    replace (x - (x - sqrt (n2 - q))) with (sqrt (n2 - q)) by ring.
+    rewrite sqrt_sqrt by lra.
+    replace (q + (n2 - q)) with n2 by ring.
+    replace (x - 0) with x by ring. fold U0. exact Hn2. }
+  split; [exact Hd|]. split; [lra|]. split; [exact Hpath|].
+  unfold Eplus, breaks_monotone, pos_var_from, clamp.
+  rewrite (Rmin_left _ x) by lra. rewrite (Rmax_right 0 (x - sqrt (n2 - q))) by lra.
+  rewrite Hpath.
+  replace (ip_path p pref c x q 0 + dE - ip_path p pref c x q 0) with dE by ring.
+  replace (ip_path p pref c x q 0 + dE - (ip_path p pref c x q 0 + dE)) with 0 by ring.
+  rewrite (Rmax_right 0 dE) by lra. rewrite (Rmax_left 0 0) by lra. ring.
+Qed.
+
+Lemma Eplus_one_break (f : R -> R) (x d : R) :
+  Eplus f (breaks_monotone x) d = Rmax 0 (f (clamp d x) - f 0) + Rmax 0 (f d - f (clamp d x)).
+Proof. reflexivity. Qed.
+
+Ltac rmax_lra :=
+  unfold Rmax; repeat match goal with |- context [Rle_dec ?a ?b] => destruct (Rle_dec a b) end; lra.
+
+Theorem ip_repulsive_infinite (p pref c dE x q : R) :
+  0 < p -> 0 < q -> 0 < dE -> 0 < c * pref ->
+  ip_disp_repulsive p pref c dE x q = None ->
+  forall d, 0 <= d -> Eplus (ip_path p pref c x q) (breaks_monotone x) d <= dE.
+Proof.
+  intros Hp Hq HdE Hk H d Hd. rewrite Eplus_one_break. unfold clamp, ip_path.
+  unfold ip_disp_repulsive in H.
+  destruct (Rle_dec x 0) as [Hx|Hx].
+  - (* moving away: the energy never increases *)
+    rewrite (Rmax_left 0 (Rmin d x)) by (pose proof (Rmin_r d x); lra).
+    replace (x - 0) with x by ring.
+    assert (ip_potential p pref c (q + (x - d) * (x - d)) <= ip_potential p pref c (q + x * x)).
+    { apply ip_potential_antitone; try assumption; nra. }
+    rmax_lra.
+  - apply Rnot_le_lt in Hx. cbv zeta in H. replace (q + 0 * 0) with q in H by ring.
+    destruct (Rlt_dec dE (ip_potential p pref c q - ip_potential p pref c (q + x * x))) as [|Hge]; [discriminate|].
+    apply Rnot_lt_le in Hge.
+    replace (x - 0) with x by ring.
+    destruct (Rle_lt_dec d x) as [Hdx|Hdx].
+    + rewrite (Rmin_left d x) by lra. rewrite (Rmax_right 0 d) by lra.
+      assert (ip_potential p pref c (q + (x - d) * (x - d)) <= ip_potential p pref c q).
+      { apply ip_potential_antitone; try assumption; nra. }
+      rmax_lra.
+    + rewrite (Rmin_right d x) by lra. rewrite (Rmax_right 0 x) by lra.
+      replace (x - x) with 0 by ring. replace (q + 0 * 0) with q by ring.
+      assert (ip_potential p pref c (q + (x - d) * (x - d)) <= ip_potential p pref c q).
+      { apply ip_potential_antitone; try assumption; nra. }
+      rmax_lra.
+Qed.
+
+Corollary ip_repulsive_infinite_iff (p pref c dE x q : R) :
+  0 < p -> 0 < q -> 0 < dE -> 0 < c * pref ->
+  ((forall d, 0 <= d -> Eplus (ip_path p pref c x q) (breaks_monotone x) d < dE) ->
+   ip_disp_repulsive p pref c dE x q = None) /\
+  (ip_disp_repulsive p pref c dE x q = None ->
+   forall d, 0 <= d -> Eplus (ip_path p pref c x q) (breaks_monotone x) d <= dE).
+Proof.
+  intros Hp Hq HdE Hk. split.
+  - intros H. destruct (ip_disp_repulsive p pref c dE x q) as [d|] eqn:E; [|reflexivity]. exfalso.
+    destruct (ip_repulsive_inverts p pref c dE x q d Hp Hq HdE Hk E) as [[Hd _] [_ [_ HE]]].
+    specialize (H d (Rlt_le _ _ Hd)). lra.
+  - apply ip_repulsive_infinite; assumption.
+Qed.
+
+(** *** attractive branch *)
+Lemma ip_potential_neg (p pref c r2 : R) : c * pref < 0 -> ip_potential p pref c r2 < 0.
+Proof.
+  intros. unfold ip_potential, Rdiv. pose proof (Rpower_pos r2 (p / 2)).
+  assert (0 < / Rpower r2 (p / 2)) by (apply Rinv_0_lt_compat; assumption). nra.
+Qed.
+
+Lemma ip_potential_monotone_neg_strict (p pref c a b : R) :
+  0 < p -> c * pref < 0 -> 0 < a -> a < b -> ip_potential p pref c a < ip_potential p pref c b.
+Proof.
+  intros Hp Hk Ha Hab. unfold ip_potential.
+  assert (Rpower a (p / 2) < Rpower b (p / 2)) by (apply Rlt_Rpower_l; lra).
+  pose proof (Rpower_pos a (p / 2)). pose proof (Rpower_pos b (p / 2)).
+  assert (/ Rpower b (p / 2) < / Rpower a (p / 2)) by (apply Rinv_lt_contravar; [nra | assumption]).
+  unfold Rdiv. nra.
+Qed.
+
+Theorem ip_attractive_inverts (p pref c dE x q d : R) :
+  0 < p -> 0 < q -> 0 < dE -> c * pref < 0 ->
+  ip_disp_attractive p pref c dE x q = Some d ->
+  Rmax 0 x < d /\
+  ip_path p pref c x q d = ip_path p pref c x q (Rmax 0 x) + dE /\
+  Eplus (ip_path p pref c x q) (breaks_monotone x) d = dE.
+Proof.
+  intros Hp Hq HdE Hk H. unfold ip_disp_attractive in H. cbv zeta in H.
+  set (d0 := if Rlt_dec 0 x then x else 0) in *.
+  set (x1 := if Rlt_dec 0 x then 0 else x) in *.
+  assert (Hd0 : d0 = Rmax 0 x /\ x1 <= 0 /\ d0 + x1 = x /\ 0 <= d0).
+  { unfold d0, x1. destruct (Rlt_dec 0 x).
+    - rewrite Rmax_right by lra. lra.
+    - rewrite Rmax_left by lra. lra. }
+  destruct Hd0 as [Ed0 [Hx1 [Esum Hd0]]].
+  set (U0 := ip_potential p pref c (q + x1 * x1)) in *.
+  destruct (Rle_dec 0 (U0 + dE)) as [|Hneg]; [discriminate|]. apply Rnot_le_lt in Hneg.
+  injection H as <-.
+  set (n2 := Rpower (c * pref / (U0 + dE)) (2 / p)).
+  assert (Hquot : 0 < c * pref / (U0 + dE)).
+  { unfold Rdiv. assert (/ (U0 + dE) < 0) by (apply Rinv_lt_0_compat; lra). nra. }
+  assert (Hn2 : ip_potential p pref c n2 = U0 + dE) by (apply ip_invert; assumption).
+  assert (Hn2pos : 0 < n2) by apply Rpower_pos.
+  assert (Hr1 : 0 < q + x1 * x1) by nra.
+  assert (Hgt : q + x1 * x1 < n2).
+  { destruct (Rlt_le_dec (q + x1 * x1) n2) as [L|L]; [exact L|]. exfalso.
+    pose proof (ip_potential_monotone_neg p pref c n2 (q + x1 * x1) Hp Hk Hn2pos L). fold U0 in H. lra. }
+  assert (Hnq : 0 < n2 - q) by nra.
+  assert (Hs : - x1 < sqrt (n2 - q)).
+  { rewrite <- (sqrt_square (- x1)) by lra. apply sqrt_lt_1_alt. split; nra. }
+  unfold until_neg.
+  assert (Hd : Rmax 0 x < d0 + (x1 + sqrt (n2 - q))) by lra.
+  assert (Hpath : ip_path p pref c x q (d0 + (x1 + sqrt (n2 - q))) = ip_path p pref c x q (Rmax 0 x) + dE).
+  { unfold ip_path.
+    replace (x - (d0 + (x1 + sqrt (n2 - q)))) with (- sqrt (n2 - q)) by lra.
+    replace (- sqrt (n2 - q) * - sqrt (n2 - q)) with (sqrt (n2 - q) * sqrt (n2 - q)) by ring.
+    rewrite sqrt_sqrt by lra. replace (q + (n2 - q)) with n2 by ring.
+    replace (x - Rmax 0 x) with x1 by lra. fold U0. exact Hn2. }
+  split; [exact Hd|]. split; [exact Hpath|].
+  rewrite Eplus_one_break. unfold clamp.
+  set (d := d0 + (x1 + sqrt (n2 - q))) in *.
+  assert (Ec : Rmax 0 (Rmin d x) = Rmax 0 x).
+  { rewrite (Rmin_right d x); [reflexivity|]. pose proof (Rmax_r 0 x). lra. }
+  rewrite Ec, Hpath.
+  assert (Hdown : ip_path p pref c x q (Rmax 0 x) <= ip_path p pref c x q 0).
+  { unfold ip_path. replace (x - 0) with x by ring. replace (x - Rmax 0 x) with x1 by lra.
+    apply ip_potential_monotone_neg; try assumption.
+    clear - Hq. subst x1. destruct (Rlt_dec 0 x); nra. }
+  set (A := ip_path p pref c x q (Rmax 0 x)) in *. set (B := ip_path p pref c x q 0) in *.
+  rmax_lra.
+Qed.
+
+Theorem ip_attractive_infinite (p pref c dE x q : R) :
+  0 < p -> 0 < q -> 0 < dE -> c * pref < 0 ->
+  ip_disp_attractive p pref c dE x q = None ->
+  forall d, 0 <= d -> Eplus (ip_path p pref c x q) (breaks_monotone x) d < dE.
+Proof.
+  intros Hp Hq HdE Hk H d Hd. unfold ip_disp_attractive in H. cbv zeta in H.
+  set (x1 := if Rlt_dec 0 x then 0 else x) in *.
+  assert (Hx1 : x1 = x - Rmax 0 x).
+  { unfold x1. destruct (Rlt_dec 0 x); [rewrite Rmax_right by lra | rewrite Rmax_left by lra]; ring. }
+  set (U0 := ip_potential p pref c (q + x1 * x1)) in *.
+  destruct (Rle_dec 0 (U0 + dE)) as [Hge|]; [|discriminate].
+  rewrite Eplus_one_break. unfold clamp.
+  assert (Hc : Rmax 0 x = Rmax 0 (Rmin d x) \/ (d < x /\ Rmax 0 (Rmin d x) = d)).
+  { destruct (Rle_lt_dec x d); [left; rewrite Rmin_right by lra; reflexivity|].
+    right. rewrite Rmin_left by lra. rewrite Rmax_right by lra. lra. }
+  assert (Hneg : forall s, ip_path p pref c x q s < 0) by (intros; apply ip_potential_neg; exact Hk).
+  assert (Hdown : forall s, 0 <= s <= x -> ip_path p pref c x q s <= ip_path p pref c x q 0).
+  { intros s Hs. unfold ip_path. apply ip_potential_monotone_neg; try assumption; nra. }
+  destruct Hc as [Hc|[Hdx Hc]].
+  - rewrite <- Hc.
+    assert (E0 : ip_path p pref c x q (Rmax 0 x) = U0).
+    { unfold ip_path, U0. rewrite Hx1. reflexivity. }
+    assert (ip_path p pref c x q (Rmax 0 x) <= ip_path p pref c x q 0).
+    { destruct (Rle_lt_dec x 0); [rewrite Rmax_left by lra; lra|]. rewrite Rmax_right by lra. apply Hdown; lra. }
+    pose proof (Hneg d).
+    set (A := ip_path p pref c x q (Rmax 0 x)) in *. set (B := ip_path p pref c x q 0) in *.
+    set (D := ip_path p pref c x q d) in *. rmax_lra.
+  - rewrite Hc.
+    assert (ip_path p pref c x q d <= ip_path p pref c x q 0) by (apply Hdown; lra).
+    set (B := ip_path p pref c x q 0) in *. set (D := ip_path p pref c x q d) in *. rmax_lra.
+Qed.
+
+(** *** the whole standard_velocity_displacement of InversePowerPotential, including the division by the speed *)
+Theorem ip_displacement_inverts (p pref c1 c2 dE x q speed t : R) :
+  0 < p -> 0 < q -> 0 < dE -> 0 < speed -> pref * (c1 * c2) <> 0 ->
+  sv_displacement (ip_displacement p pref c1 c2 dE x q) speed = Some t ->
+  0 < t /\ Eplus (ip_path p pref (c1 * c2) x q) (breaks_monotone x) (t * speed) = dE.
+Proof.
+  intros Hp Hq HdE Hv Hk H. unfold sv_displacement, ip_displacement in H. cbv zeta in H.
+  destruct (Rlt_dec 0 (pref * (c1 * c2))) as [Hpos|Hneg].
+  - destruct (ip_disp_repulsive p pref (c1 * c2) dE x q) as [d|] eqn:E; [|discriminate].
+    simpl in H. injection H as <-.
+    destruct (ip_repulsive_inverts p pref (c1 * c2) dE x q d Hp Hq HdE ltac:(lra) E) as [[Hd _] [_ [_ HE]]].
+    split; [apply Rdiv_lt_0_compat; assumption|].
+    replace (d / speed * speed) with d by (field; lra). exact HE.
+  - destruct (ip_disp_attractive p pref (c1 * c2) dE x q) as [d|] eqn:E; [|discriminate].
+    simpl in H. injection H as <-.
+    destruct (ip_attractive_inverts p pref (c1 * c2) dE x q d Hp Hq HdE ltac:(lra) E) as [Hd [_ HE]].
+    split; [apply Rdiv_lt_0_compat; [pose proof (Rmax_l 0 x); lra | assumption]|].
+    replace (d / speed * speed) with d by (field; lra). exact HE.
+Qed.
+
+Theorem ip_displacement_infinite (p pref c1 c2 dE x q speed : R) :
+  0 < p -> 0 < q -> 0 < dE -> 0 < speed -> pref * (c1 * c2) <> 0 ->
+  sv_displacement (ip_displacement p pref c1 c2 dE x q) speed = None ->
+  forall d, 0 <= d -> Eplus (ip_path p pref (c1 * c2) x q) (breaks_monotone x) d <= dE.
+Proof.
+  intros Hp Hq HdE Hv Hk H d Hd. unfold sv_displacement, ip_displacement in H. cbv zeta in H.
+  destruct (Rlt_dec 0 (pref * (c1 * c2))) as [Hpos|Hneg].
+  - destruct (ip_disp_repulsive p pref (c1 * c2) dE x q) eqn:E; [discriminate|].
+    apply (ip_repulsive_infinite p pref (c1 * c2) dE x q); try assumption; lra.
+  - destruct (ip_disp_attractive p pref (c1 * c2) dE x q) eqn:E; [discriminate|].
+    left. apply (ip_attractive_infinite p pref (c1 * c2) dE x q); try assumption; lra.
+Qed.
+
+(** *** radicands: under each branch condition every sqrt / power argument is non-negative (totality in exact
+    arithmetic) and the result is non-negative *)
+Theorem ip_radicands_nonneg (p pref c dE x q : R) :
+  0 < p -> 0 < q -> 0 < dE -> c * pref <> 0 ->
+  let k := c * pref in
+  (0 < k -> 0 < x -> dE < ip_potential p pref c (q + 0 * 0) - ip_potential p pref c (q + x * x) ->
+     let U0 := ip_potential p pref c (q + x * x) in
+     0 < k / (U0 + dE) /\ 0 <= Rpower (k / (U0 + dE)) (2 / p) - q /\
+     0 <= until_pos x q (Rpower (k / (U0 + dE)) (2 / p))) /\
+  (k < 0 ->
+     let x1 := if Rlt_dec 0 x then 0 else x in
+     let U0 := ip_potential p pref c (q + x1 * x1) in
+     U0 + dE < 0 ->
+     0 < k / (U0 + dE) /\ 0 <= Rpower (k / (U0 + dE)) (2 / p) - q /\
+     0 <= (if Rlt_dec 0 x then x else 0) + until_neg x1 q (Rpower (k / (U0 + dE)) (2 / p))).
+Proof.
+  intros Hp Hq HdE Hk k. split.
+  - intros Hpos Hx Hlt U0.
+    assert (E : ip_disp_repulsive p pref c dE x q = Some (until_pos x q (Rpower (k / (U0 + dE)) (2 / p)))).
+    { unfold ip_disp_repulsive. destruct (Rle_dec x 0); [lra|]. cbv zeta.
+      destruct (Rlt_dec dE _); [reflexivity | contradiction]. }
+    destruct (ip_repulsive_inverts p pref c dE x q _ Hp Hq HdE Hpos E) as [[Hd _] [Hrad _]].
+    assert (0 < U0) by (apply ip_potential_pos; exact Hpos).
+    split; [apply Rdiv_lt_0_compat; lra|]. fold U0 in Hrad. fold k in Hrad. split; lra.
+  - intros Hneg x1 U0 Hlt.
+    assert (E : ip_disp_attractive p pref c dE x q =
+                Some ((if Rlt_dec 0 x then x else 0) + until_neg x1 q (Rpower (k / (U0 + dE)) (2 / p)))).
+    { unfold ip_disp_attractive. cbv zeta. fold x1. fold U0.
+      destruct (Rle_dec 0 (U0 + dE)); [lra | reflexivity]. }
+    destruct (ip_attractive_inverts p pref c dE x q _ Hp Hq HdE Hneg E) as [Hd _].
+    assert (Hquot : 0 < k / (U0 + dE)).
+    { unfold Rdiv. assert (/ (U0 + dE) < 0) by (apply Rinv_lt_0_compat; lra). nra. }
+    split; [exact Hquot|].
+    split; [|pose proof (Rmax_l 0 x); lra].
+    (* n2 >= q + x1^2 >= q *)
+    set (n2 := Rpower (k / (U0 + dE)) (2 / p)).
+    assert (Hn2 : ip_potential p pref c n2 = U0 + dE) by (apply ip_invert; assumption).
+    assert (Hn2pos : 0 < n2) by apply Rpower_pos.
+    destruct (Rlt_le_dec (q + x1 * x1) n2) as [L|L]; [nra|]. exfalso.
+    pose proof (ip_potential_monotone_neg p pref c n2 (q + x1 * x1) Hp Hneg Hn2pos L) as M. fold U0 in M. lra.
+Qed.
+
+(** *** sign of dU/ds on each monotone piece (ties Eplus to the integral of the positive part of dU/ds) *)
+Lemma path_is_derive_at (U : R -> R) (D : R -> R -> R) (x q s0 : R) :
+  (forall x q, 0 < q + x * x ->
+     is_derive (fun s => U (sqrt (q + (x - s * 1) * (x - s * 1)))) 0 (sv_derivative (D x q) 1)) ->
+  0 < q + (x - s0) * (x - s0) ->
+  is_derive (fun s => U (sqrt (q + (x - s) * (x - s)))) s0 (D (x - s0) q).
+Proof.
+  intros HD Hpos.
+  pose proof (HD (x - s0) q Hpos) as H0. unfold sv_derivative in H0. rewrite Rmult_1_r in H0.
+  (* compose with the translation s |-> s - s0 *)
+  pose proof (is_derive_comp (fun s => U (sqrt (q + (x - s0 - s * 1) * (x - s0 - s * 1)))) (fun s => s - s0) s0
+               (D (x - s0) q) 1) as C.
+  assert (H0' : is_derive (fun s => U (sqrt (q + (x - s0 - s * 1) * (x - s0 - s * 1)))) ((fun s => s - s0) s0) (D (x - s0) q)).
+  { simpl. replace (s0 - s0) with 0 by ring. exact H0. }
+  specialize (C H0').
+  assert (T : is_derive (fun s : R => s - s0) s0 1) by (auto_derive; [exact I | ring]).
+  specialize (C T). unfold scal in C; simpl in C; unfold mult in C; simpl in C. rewrite Rmult_1_l in C.
+  apply (is_derive_ext (fun s => U (sqrt (q + (x - s0 - (s - s0) * 1) * (x - s0 - (s - s0) * 1))))); [|exact C].
+  intros t. f_equal. f_equal. ring.
+Qed.
+
+Theorem ip_pieces_monotone (p pref c1 c2 x q s0 : R) :
+  0 < p -> 0 < q ->
+  is_derive (fun s => ip_U p (pref * c1 * c2) (sqrt (q + (x - s) * (x - s)))) s0 (ip_derivative p pref c1 c2 (x - s0) q) /\
+  (0 < pref * c1 * c2 -> (s0 < x -> 0 < ip_derivative p pref c1 c2 (x - s0) q) /\
+                         (x < s0 -> ip_derivative p pref c1 c2 (x - s0) q < 0)) /\
+  (pref * c1 * c2 < 0 -> (s0 < x -> ip_derivative p pref c1 c2 (x - s0) q < 0) /\
+                         (x < s0 -> 0 < ip_derivative p pref c1 c2 (x - s0) q)).
+Proof.
+  intros Hp Hq.
+  assert (Hpos : 0 < q + (x - s0) * (x - s0)).
+  { pose proof (Rle_0_sqr (x - s0)) as S. unfold Rsqr in S. lra. }
+  split.
+  - apply (path_is_derive_at (ip_U p (pref * c1 * c2)) (ip_derivative p pref c1 c2)); [|exact Hpos].
+    intros x' q' H'. apply ip_derivative_is_derive. exact H'.
+  - unfold ip_derivative.
+    pose proof (Rpower_pos (sqrt (q + (x - s0) * (x - s0))) (p + 2)) as HR.
+    set (R2 := Rpower (sqrt (q + (x - s0) * (x - s0))) (p + 2)) in *.
+    assert (HI : 0 < / R2) by (apply Rinv_0_lt_compat; exact HR).
+    replace (p * (x - s0) / R2 * pref * c1 * c2) with ((p * / R2) * ((x - s0) * (pref * c1 * c2))) by (unfold Rdiv; ring).
+    assert (HpR : 0 < p * / R2) by nra.
+    split; intros Hk; split; intros Hs.
+    + apply Rmult_lt_0_compat; [exact HpR | nra].
+    + assert ((x - s0) * (pref * c1 * c2) < 0) by nra. nra.
+    + assert ((x - s0) * (pref * c1 * c2) < 0) by nra. nra.
+    + apply Rmult_lt_0_compat; [exact HpR | nra].
+Qed.
+
+(** *** cell bounding potential: constant rate *)
+Theorem cb_displacement_inverts (rate dE speed t : R) :
+  0 < dE -> 0 < speed ->
+  sv_displacement (cb_displacement rate dE) speed = Some t -> 0 < t /\ rate * (t * speed) = dE.
+Proof.
+  intros HdE Hv H. unfold sv_displacement, cb_displacement in H.
+  destruct (Rlt_dec 0 rate) as [Hr|]; [|discriminate]. simpl in H. injection H as <-.
+  split.
+  - apply Rdiv_lt_0_compat; [apply Rdiv_lt_0_compat|]; assumption.
+  - field. lra.
+Qed.
+
+Theorem cb_infinite_iff (rate dE speed : R) :
+  sv_displacement (cb_displacement rate dE) speed = None <-> rate <= 0.
+Proof.
+  unfold sv_displacement, cb_displacement. destruct (Rlt_dec 0 rate); simpl; split; intros; try lra; try discriminate.
+  reflexivity.
+Qed.
